@@ -14,8 +14,9 @@ tie    : (1) models built through harness/common/script.hpp (gen/script_gen.py v
              document text) and predicts, for EVERY document (also the decorated ones, the hand-shaped ones of
              gen/c14_docs.hand_documents, corpus/C14/* and /repo/tests/resources/cellml1X/*), the permissive parser's
              issue list (level, rule) in order, the transformed model, and the strict parser's answer.
-search : on the library's own output, for documents rewritten from a model in the property's domain (validator-accepted,
-         or printable & expressible_1x): permissive issues all of level MESSAGE, dump.hpp content equal to the 2.0
+search : on the library's own output, for documents rewritten from a model in the property's domain (printable in the sense
+         of C02 -- every validator-accepted generated model is, up to C02's own findings -- and expressible_1x):
+         permissive issues all of level MESSAGE, dump.hpp content equal to the 2.0
          original (interface "none" = no interface, numbers at 15 digits, math up to blanks and attribute order, child
          order ignored), Validator silent on the transformed model when it was silent on the original; strict parser:
          exactly one ERROR and an empty model.  Hand-shaped 'legal' documents: nothing stronger than a message.
